@@ -178,6 +178,8 @@ func (cr *concRun) doOp(g int, op rsOp, id int, nested bool) {
 // still has gates to pass when the schedule ends: the code's grain is not the model's - all gates are
 // opened and the goroutines run on freely; what they did is judged all the same.  Stuck means that
 // the goroutines did not finish even with every gate open: a deadlock of the code itself.
+var gateTimeouts int // schedules of this process that ended in a gate nobody reached in time
+
 func runConcCase(c *concCase, stuckAfter time.Duration) ([]concObs, bool) {
 	n := len(c.Prog)
 	cr := &concRun{c: c, resume: map[int]chan struct{}{}, events: make(chan concEvent, 4096),
@@ -208,10 +210,21 @@ func runConcCase(c *concCase, stuckAfter time.Duration) ([]concObs, bool) {
 			cr.events <- concEvent{g, "done"}
 		}(g)
 	}
-	const gateWait = 1500 * time.Millisecond // far beyond what a step between two gates takes
+	// gateWait is far beyond what a step between two gates takes.  A tree whose locking has another grain than
+	// the model's (a goroutine waits for a lock that a parked one holds) runs into it schedule after schedule:
+	// after a few of those the wait is cut short, and after many the schedules are run with open gates from
+	// the start - the controlled pass says nothing about such a tree, the observations are judged all the same.
+	gateWait := 1500 * time.Millisecond
+	if gateTimeouts >= 8 {
+		gateWait = 60 * time.Millisecond
+	}
 	finished := map[int]bool{}
-	fits := true
-	for _, g := range c.Sched {
+	fits := gateTimeouts < 40
+	sched := c.Sched
+	if !fits {
+		sched = nil
+	}
+	for _, g := range sched {
 		if finished[g] {
 			fits = false
 			break
@@ -220,6 +233,7 @@ func runConcCase(c *concCase, stuckAfter time.Duration) ([]concObs, bool) {
 		case cr.resume[g] <- struct{}{}:
 		case <-time.After(gateWait):
 			fits = false
+			gateTimeouts++
 		}
 		if !fits {
 			break
@@ -231,6 +245,7 @@ func runConcCase(c *concCase, stuckAfter time.Duration) ([]concObs, bool) {
 			}
 		case <-time.After(gateWait):
 			fits = false
+			gateTimeouts++
 		}
 		if !fits {
 			break
